@@ -393,6 +393,81 @@ def key_final_before_hash(rep, mod, rule):
               {'problems': sorted(set(probs))[:3]}, construct='key-final', node=f)
 
 
+ORDERING = (ast.Lt, ast.LtE, ast.Gt, ast.GtE)
+
+
+def eq_no_ordering(rep, rule, mod, u):
+    """Equality is decided by equality of the key components alone: no path of
+    __eq__ / __ne__ (through the methods of self they call) evaluates an
+    ordering comparison of the keys - that raises TypeError for components that
+    are unequal but not orderable (a `__name__` of None), where the other
+    implementation answers.  C side: IB_richcompare hands the caller's operator
+    through, its only fixed operator is Py_EQ."""
+    from ..sympath import summaries as _S
+    ib = find_def(mod, 'InterfaceBase')
+    ms = methods_of(ib)
+    # methods of the comparison mixin are reachable through self
+    for b in ib.bases:
+        try:
+            bc = find_def(mod, dotted(b))
+        except AnalysisError:
+            continue
+        for k, v in methods_of(bc).items():
+            ms.setdefault(k, v)
+
+    def ordering_in(f, seen):
+        out = []
+        for ps in _S(f, normal_only=False):
+            exprs = [ps.ret] if ps.ret is not None else []
+            exprs += [getattr(e, 'val', None) for e in ps.events
+                      if e.kind in ('store', 'aug')]
+            for c, t, p in ps.order:
+                try:
+                    exprs.append(ast.parse(c, mode='eval').body)
+                except SyntaxError:
+                    pass
+            for x in exprs:
+                if x is None:
+                    continue
+                for n in ast.walk(x):
+                    if isinstance(n, ast.Compare) and any(isinstance(o, ORDERING)
+                                                          for o in n.ops):
+                        txt = norm_src(n)
+                        if '__name__' in txt or '__module__' in txt:
+                            out.append(txt[:80])
+            for e in ps.events:
+                if e.kind == 'call' and isinstance(e.r, ast.Call) and \
+                        isinstance(e.r.func, ast.Attribute) and nt(e.r.func.value) == 'self':
+                    g = ms.get(e.r.func.attr)
+                    if g is not None and g.name not in seen:
+                        seen.add(g.name)
+                        out += ['%s: %s' % (g.name, t_) for t_ in ordering_in(g, seen)]
+        return out
+    for name in ('__eq__', '__ne__'):
+        f = ms.get(name)
+        rep.require(f is not None, 'InterfaceBase.%s vanished' % name)
+        found = sorted(set(ordering_in(f, {name})))
+        rep.check(rule, 'InterfaceBase.' + name, not found,
+                  'equality is decided without ordering the keys' if not found else
+                  {'ordering_comparisons_evaluated': found[:2],
+                   'consequence': 'for keys that are unequal but not orderable (an '
+                                  'interface whose __name__ is None against a named '
+                                  'one) %s raises TypeError; the C twin compares the '
+                                  'components with Py_EQ only and answers' % name},
+                  construct='eq-orders-keys', node=f)
+    fixed = set()
+    for n in ccfg(u.func('IB_richcompare')).nodes:
+        for c in node_calls(n):
+            if c.a[0] in ('PyObject_RichCompare', 'PyObject_RichCompareBool') and \
+                    len(c.a[1]) == 3 and c.a[1][2] is not None:
+                o = c.a[1][2]
+                fixed.add(show(o))
+    okc = fixed <= {'op', 'Py_EQ', 'Py_NE', '2', '3'}      # Py_EQ = 2, Py_NE = 3
+    ccheck(rep, rule, 'IB_richcompare', okc and bool(fixed),
+           'component comparisons use the caller\'s operator or Py_EQ (%s)'
+           % sorted(fixed), construct='eq-orders-keys')
+
+
 def run(rep):
     repo = rep.repo
     mod = repo.module('interface.py')
@@ -408,6 +483,9 @@ def run(rep):
              'key (__name__, __module__) comes before the first step that can hash '
              'the new object (linking it to its bases makes it a key of their '
              'dependents mapping)', floor=1)
+    rep.rule('R12.6', 'equality never orders: __eq__/__ne__ are decided by equality of '
+             '(__name__, __module__) alone, in Python and in C, so that unequal keys '
+             'that are not orderable compare unequal instead of raising', floor=3)
     rep.rule('R12.3', 'Implements is orderable together with interfaces (same '
              'mixin) and keeps identity equality/hash; its name is a function '
              'of __module__/__name__ only', floor=3)
@@ -457,6 +535,9 @@ def run(rep):
     ccheck(rep, 'R12.2', 'IB__hash__', ok and set(writers) <= {'IB__hash__'},
            'hashes PyTuple_Pack(2, self->__name__, self->__module__); memo '
            'written by %s %s' % (sorted(set(writers)), cprobs[:3]), construct='hash-key')
+
+    # ---- R12.6 ---------------------------------------------------------------
+    eq_no_ordering(rep, 'R12.6', mod, u)
 
     # ---- R12.5 ---------------------------------------------------------------
     key_final_before_hash(rep, mod, 'R12.5')
